@@ -98,11 +98,17 @@ func ruleP04ResumePrevious(p *Prog, r *Report) {
 		return
 	}
 	cl := f.AnonFuncs[0]
-	cs := callsTo(cl, sortFn)
-	okSort := len(cs) == 1
+	// (the search may live in a helper that returns the record found)
+	vcs := virtualCallsTo(cl, sortFn)
+	okSort := len(vcs) == 1
+	var sorted ssa.Value
 	if okSort {
-		b, isB := constBool(cs[0].Common().Args[1])
-		okSort = isB && !b && strip(cs[0].Common().Args[0]) == ssa.Value(cl.Params[0])
+		vcs[0].run(func() {
+			c := vcs[0].call
+			b, isB := constBool(c.Common().Args[1])
+			okSort = isB && !b && strip(c.Common().Args[0]) == ssa.Value(cl.Params[0])
+			sorted = c.Value()
+		})
 	}
 	r.check(okSort, rule, "descending", p.pos(cl.Pos()), "records are visited from the latest to the oldest", "the previous record is not searched in descending date order (an older record than the most recent earlier one is taken)")
 	// the store to PreviousRecord: element of that sorted slice, on the edge where !elem.Date().IsAfterOrEqual(current)
@@ -113,27 +119,50 @@ func ruleP04ResumePrevious(p *Prog, r *Report) {
 			return
 		}
 		fa, ok := st.Addr.(*ssa.FieldAddr)
-		if !ok || fieldName(fa) != "PreviousRecord" {
+		if !ok || fieldName(fa) != "PreviousRecord" || sorted == nil {
 			return
 		}
-		coll := rangeElemOf(st.Val)
-		if coll == nil || len(cs) != 1 || !sameValue(coll, cs[0].Value()) {
-			return
-		}
-		for _, g := range guardsOf(st.Block()) {
-			n, recv, args, _ := methodCall(g.Cond)
-			if n == "IsAfterOrEqual" && !g.Pol && len(args) == 1 {
-				n2, r2, _, _ := methodCall(recv)
-				if n2 == "Date" && rangeElemOf(r2) != nil && isFreeVarOrParam(args[0]) {
-					okStore = true
+		nFound, good := 0, true
+		for _, row := range valueRows(st.Val, 0, map[ssa.Value]bool{}) {
+			if isNilConst(row.val) {
+				// "nothing found": must not be stored
+				if !knownNonNil(st.Block(), st.Val) {
+					good = false
+				}
+				continue
+			}
+			nFound++
+			coll := rangeElemOf(row.val)
+			if coll == nil || !sameValue(coll, sorted) {
+				good = false
+				continue
+			}
+			earlier := false
+			for _, g := range append(append([]Guard{}, row.guards...), guardsOf(st.Block())...) {
+				n, recv, args, _ := methodCall(g.Cond)
+				if n == "IsAfterOrEqual" && !g.Pol && len(args) == 1 {
+					n2, r2, _, _ := methodCall(recv)
+					if n2 == "Date" && rangeElemOf(r2) != nil && isFreeVarOrParam(args[0]) {
+						earlier = true
+					}
+				}
+			}
+			if !earlier {
+				good = false
+			}
+			// and the search stops there: the value is returned from the loop, or the store is
+			// not followed by another iteration
+			if ret, isRet := row.at.(*ssa.Return); isRet && ret.Parent() != cl {
+				continue
+			}
+			for _, s := range st.Block().Succs {
+				if reachableFrom(s, nil)[st.Block()] {
+					good = false
 				}
 			}
 		}
-		// and the search stops there
-		for _, s := range st.Block().Succs {
-			if reachableFrom(s, nil)[st.Block()] {
-				okStore = false
-			}
+		if nFound > 0 && good {
+			okStore = true
 		}
 	})
 	r.check(okStore, rule, "first-earlier", p.pos(cl.Pos()), "the first record strictly before the target date is taken and the search stops", "the previous record is not the first record (in that order) whose date is strictly before the target date")
@@ -190,6 +219,21 @@ func ruleP04PauseToken(p *Prog, r *Report) {
 		return
 	}
 	r.check(ok, rule, "covers-durations", p.instrPos(at), fmt.Sprintf("%s matches every serialised negative duration", pat), fmt.Sprintf("the pause token pattern %s does not match the serialised duration %q: extending such a pause rewrites only a part of it", pat, w))
+	// ExtendPause takes the last duration entry with InMinutes() <= 0 as the pause: besides the
+	// negative ones these are the zero durations, which need not carry a minus sign (0m, +0m, 0h).
+	// Their value token must be found as well — otherwise the first match lies in the summary
+	// ("0m pre-work" became "0m pre-1m", D12)
+	refZero := `\+?(0+h0+m|0+h|0+m)`
+	if okZ, wz, errZ := reIncluded(refZero, pat); errZ == nil {
+		r.check(okZ, rule, "covers-zero", p.instrPos(at), fmt.Sprintf("%s matches every zero-valued pause as well", pat), fmt.Sprintf("the pause token pattern %s does not match the zero duration %q, which ExtendPause also selects as the pause to extend: the first thing the pattern does match (a hyphenated word of the summary) is rewritten instead, or the new value is put in front of the line", pat, wz))
+	} else {
+		r.undecided(rule, "covers-zero", p.instrPos(at), "cannot compare pattern: %v", errZ)
+	}
+	// and a match stays inside one blank-delimited token (it can neither start in the indentation
+	// nor run on into the summary)
+	if okS, ws, errS := reIncluded(pat, `[^ \t]+`); errS == nil {
+		r.check(okS, rule, "one-token", p.instrPos(at), "a match contains no blank", fmt.Sprintf("the pause token pattern %s can match text with a blank in it (%q): more than the value token is replaced", pat, ws))
+	}
 	// the longest match must take the whole token: the pattern followed by more token characters is still within the pattern
 	ok2, w2, err2 := reIncluded(ref+`\w*`, `(?:`+pat+`)\w*`)
 	_ = w2
@@ -198,6 +242,85 @@ func ruleP04PauseToken(p *Prog, r *Report) {
 		// require that a full serialised duration is one match, not match + rest
 		inc, w3, _ := reIncluded(ref, pat)
 		r.check(ok2 && inc, rule, "whole-token", p.instrPos(at), "a compound duration such as -1h1m is matched as a whole", fmt.Sprintf("a compound duration such as %q is only matched in part", w3))
+	}
+}
+
+// P04-pause-selector — the entry `klog pause` keeps extending is a DURATION entry that does not
+// add time (<= 0). The predicate handed to findLastEntry decides by entry kind first: a range
+// never qualifies (a range of zero length has a duration of 0 too, and its line does not begin
+// with a duration token), nor does the open range.
+func ruleP04PauseSelector(p *Prog, r *Report) {
+	const rule = "P04-pause-selector"
+	f := p.method("klog/parser/reconciling", "Reconciler", "ExtendPause")
+	fle := p.method("klog/parser/reconciling", "Reconciler", "findLastEntry")
+	if !r.anchorFn(rule, f, "Reconciler.ExtendPause") || !r.anchorFn(rule, fle, "Reconciler.findLastEntry") {
+		return
+	}
+	n := 0
+	for _, c := range callsTo(f, fle) {
+		pred := funcLiteral(c.Common().Args[len(c.Common().Args)-1])
+		if pred == nil {
+			if fn, isFn := strip(c.Common().Args[len(c.Common().Args)-1]).(*ssa.Function); isFn {
+				pred = fn
+			}
+		}
+		if pred == nil {
+			continue
+		}
+		// the open-range lookup is a predicate too: tell them apart by the Duration arm
+		arms, uc := p.unboxArms(pred)
+		if uc != nil {
+			own := false
+			for g := uc.Parent(); g != nil; g = g.Parent() {
+				if originFn(g) == originFn(pred) {
+					own = true
+				}
+			}
+			if !own {
+				arms = nil // a dispatch somewhere below the predicate is not the predicate's own decision
+			}
+		}
+		if arms != nil && arms["Duration"] != nil {
+			allFalse := true
+			for _, ret := range plainReturnsOf(arms["Duration"]) {
+				if v, isB := constBool(retResult(ret, 0)); !isB || v {
+					allFalse = false
+				}
+			}
+			if allFalse {
+				continue // the "is there an open range" lookup
+			}
+		}
+		n++
+		key := fmt.Sprintf("selector#%d", n)
+		if arms == nil || arms["Range"] == nil || arms["OpenRange"] == nil || arms["Duration"] == nil {
+			r.bad(rule, key, p.instrPos(c), "the pause to extend is not selected by entry kind (no klog.Unbox dispatch with one arm per kind): an entry that is not a duration — a range of zero length, say — can be taken for the pause, and its line is then rewritten as if it began with a duration")
+			continue
+		}
+		okKinds := true
+		for _, kind := range []string{"Range", "OpenRange"} {
+			for _, ret := range plainReturnsOf(arms[kind]) {
+				if v, isB := constBool(retResult(ret, 0)); !isB || v {
+					okKinds = false
+				}
+			}
+		}
+		r.check(okKinds, rule, key+":kinds", p.instrPos(c), "ranges and open ranges never qualify as the pause", "a range or an open range can be selected as the pause to extend")
+		okDur := false
+		d := arms["Duration"]
+		for _, ret := range plainReturnsOf(d) {
+			if bo, isB := strip(retResult(ret, 0)).(*ssa.BinOp); isB {
+				nm, recv, _, _ := methodCall(bo.X)
+				k, isK := constInt(bo.Y)
+				if nm == "InMinutes" && recv != nil && strip(recv) == ssa.Value(d.Params[len(d.Params)-1]) && isK && ((bo.Op == token.LEQ && k == 0) || (bo.Op == token.LSS && k == 1)) {
+					okDur = true
+				}
+			}
+		}
+		r.check(okDur, rule, key+":value", p.instrPos(c), "a duration qualifies iff it is <= 0", "the pause is not selected as 'a duration entry of at most zero minutes'")
+	}
+	if n != 1 {
+		r.undecided(rule, "selector", p.pos(f.Pos()), "expected one selection of the pause entry through findLastEntry in ExtendPause, found %d", n)
 	}
 }
 
@@ -428,6 +551,37 @@ func ruleP19NameStrip(p *Prog, r *Report) {
 		okFn := name == "strings.TrimLeft" || name == "strings.TrimPrefix"
 		r.check(okFn && cut == "@" && strip(c.Common().Args[0]) == ssa.Value(f.Params[0]), rule, "NewName:strip", p.instrPos(c), "only leading @ characters are stripped from a name", fmt.Sprintf("NewName normalises with %s(%q): characters other than the leading prefix are removed, so distinct names collide", name, cut))
 	})
+	// the hand-written form: while the value starts with "@", drop that one byte
+	eachInstr(f, func(in ssa.Instruction) {
+		sl, ok := in.(*ssa.Slice)
+		if !ok || sl.High != nil || sl.Low == nil {
+			return
+		}
+		lo, isK := constInt(sl.Low)
+		if !isK || !isStringType(sl.X.Type()) {
+			return
+		}
+		_, inputs := phiCycle(sl.X)
+		fromParam := false
+		for _, iv := range inputs {
+			if strip(iv) == ssa.Value(f.Params[0]) {
+				fromParam = true
+			}
+		}
+		if !fromParam {
+			return
+		}
+		n++
+		guarded := false
+		for _, gd := range guardsOf(sl.Block()) {
+			if hc, ok := gd.Cond.(*ssa.Call); ok && gd.Pol && staticCallee(hc) != nil && staticCallee(hc).String() == "strings.HasPrefix" {
+				if q, isQ := constString(hc.Call.Args[1]); isQ && q == "@" && int64(len(q)) == lo && sameValue(hc.Call.Args[0], sl.X) {
+					guarded = true
+				}
+			}
+		}
+		r.check(guarded, rule, "NewName:strip", p.instrPos(sl), "only leading @ characters are stripped from a name", "NewName cuts bytes off the name that are not known to be the @ prefix")
+	})
 	if n == 0 {
 		r.bad(rule, "NewName:strip", p.pos(f.Pos()), "NewName does not strip the @ prefix")
 	}
@@ -441,6 +595,7 @@ func ruleP12NowAll(p *Prog, r *Report) {
 	if an == nil {
 		return
 	}
+	chains, sites := map[string]string{}, map[string]string{}
 	for _, f := range p.srcFns {
 		if pkgPathOfFn(f) != modPath+"/klog/app/cli" {
 			continue
@@ -474,6 +629,19 @@ func ruleP12NowAll(p *Prog, r *Report) {
 				break
 			}
 			r.check(ok, rule, fnName(f)+":all-records", p.instrPos(c), "--now closes the open ranges of all records read ("+chain+"ReadInputs)", "--now is applied to only a part of the records that are evaluated (its argument is not the records read, filtered or sorted)")
+			if ok {
+				chains[fnName(outermost(f))] = chain + "ReadInputs"
+				sites[fnName(outermost(f))] = p.instrPos(c)
+			}
 		}
 	}
+	// `report` and `total` evaluate the same entries: whether the filter sees the open ranges
+	// still open or already closed (--entry-type range / open-range) must be the same for both,
+	// otherwise the grand total of the report is not what `total` says
+	tot, rep := chains["(*klog/app/cli.Total).Run"], chains["(*klog/app/cli.Report).Run"]
+	if tot == "" || rep == "" {
+		r.undecided(rule, "report=total:pipeline", "-", "the --now step of total or report was not found (total: %q, report: %q)", tot, rep)
+		return
+	}
+	r.check(tot == rep, rule, "report=total:pipeline", sites["(*klog/app/cli.Report).Run"], "report and total close open ranges at the same point of the pipeline ("+tot+")", fmt.Sprintf("report applies --now to %s, total to %s: with --now and an entry-type filter the two evaluate different entries, so the report's grand total differs from `klog total`", rep, tot))
 }
